@@ -242,12 +242,14 @@ class SMap:
     """HashMap model: finite association list with structural keys (strings of concrete shape).
     `entries` is a list of [key_elems_tuple, value]. A `default` callback may supply values for
     keys not present (oracle-backed maps)."""
-    __slots__ = ("entries", "oracle", "name")
+    __slots__ = ("entries", "oracle", "name", "extra")
 
-    def __init__(self, name="map", entries=None, oracle=None):
+    def __init__(self, name="map", entries=None, oracle=None, extra=None):
         self.name = name
         self.entries = entries if entries is not None else []
         self.oracle = oracle
+        # number of further entries whose keys are none of the keys this run asks for (None: there are none); only `len` sees them
+        self.extra = extra
 
 
 def deep_copy(v):
@@ -259,7 +261,7 @@ def deep_copy(v):
     if isinstance(v, SVec):
         return SVec([deep_copy(i) for i in v.items])
     if isinstance(v, SMap):
-        return SMap(v.name, [[k, deep_copy(x)] for k, x in v.entries], v.oracle)
+        return SMap(v.name, [[k, deep_copy(x)] for k, x in v.entries], v.oracle, v.extra)
     if isinstance(v, Box):
         return Box(deep_copy(v.cell[0]))
     return v
